@@ -1,0 +1,141 @@
+//! Verification hooks (cargo feature `verif`, off by default).
+//!
+//! Read-only observation of VM state plus one actuator: the ability to make
+//! the VM run its *real* collector at chosen instruction boundaries. Nothing
+//! in this module is compiled unless the `verif` feature is enabled.
+use crate::vm::Vm;
+use crate::vm::environment::GlobalEnvironment;
+use crate::vm::heap::Heap;
+use crate::vm::stack::Stack;
+use crate::vm::vcell::VCell;
+
+/// Phase reported to the collection observer.
+#[derive(Debug, Clone, Copy, Eq, PartialEq)]
+pub enum GcPhase {
+    Before,
+    After,
+}
+
+pub type GcSchedule = Box<dyn FnMut(&Vm, u64) -> bool>;
+pub type GcObserver = Box<dyn FnMut(&Vm, GcPhase)>;
+
+#[derive(Default)]
+pub struct State {
+    /// instructions about to be executed since the last reset
+    pub instr_count: u64,
+    /// highest stack pointer seen at an instruction boundary since the last reset
+    pub max_sp: usize,
+    /// number of forced collections since the last reset
+    pub forced_collections: u64,
+    /// set while a forced collection is running (disables the utilisation test)
+    pub forced: bool,
+    /// asked at every instruction boundary whether to collect now
+    pub schedule: Option<GcSchedule>,
+    /// called before and after every forced collection
+    pub observer: Option<GcObserver>,
+}
+
+impl std::fmt::Debug for State {
+    fn fmt(&self, f: &mut std::fmt::Formatter<'_>) -> std::fmt::Result {
+        write!(
+            f,
+            "verif::State {{ instr_count: {}, max_sp: {} }}",
+            self.instr_count, self.max_sp
+        )
+    }
+}
+
+#[derive(Debug, Clone, Eq, PartialEq)]
+pub struct Stats {
+    pub heap_capacity: usize,
+    pub heap_used: usize,
+    pub heap_free: usize,
+    pub stack_capacity: usize,
+    pub sp: usize,
+    pub bp: usize,
+    pub ep: usize,
+    pub ip: (usize, usize),
+    pub max_sp: usize,
+    pub instr_count: u64,
+    pub forced_collections: u64,
+}
+
+impl Vm {
+    /// Called by the run loop immediately before each instruction.
+    pub(crate) fn verif_tick(&mut self) {
+        self.verif.instr_count += 1;
+        let sp = self.stack.get_sp();
+        if sp > self.verif.max_sp {
+            self.verif.max_sp = sp;
+        }
+        if let Some(mut schedule) = self.verif.schedule.take() {
+            let now = schedule(self, self.verif.instr_count);
+            self.verif.schedule = Some(schedule);
+            if now {
+                self.verif_force_gc();
+            }
+        }
+    }
+
+    /// Run the production collector now, regardless of heap utilisation.
+    pub fn verif_force_gc(&mut self) {
+        let mut observer = self.verif.observer.take();
+        if let Some(observer) = observer.as_mut() {
+            observer(self, GcPhase::Before);
+        }
+        self.verif.forced = true;
+        self.run_gc();
+        self.verif.forced = false;
+        self.verif.forced_collections += 1;
+        if let Some(observer) = observer.as_mut() {
+            observer(self, GcPhase::After);
+        }
+        self.verif.observer = observer;
+    }
+
+    pub fn verif_set_gc_schedule(&mut self, schedule: Option<GcSchedule>) {
+        self.verif.schedule = schedule;
+    }
+
+    pub fn verif_set_gc_observer(&mut self, observer: Option<GcObserver>) {
+        self.verif.observer = observer;
+    }
+
+    pub fn verif_reset_counters(&mut self) {
+        self.verif.instr_count = 0;
+        self.verif.max_sp = self.stack.get_sp();
+        self.verif.forced_collections = 0;
+    }
+
+    pub fn verif_stats(&self) -> Stats {
+        Stats {
+            heap_capacity: self.heap.capacity(),
+            heap_used: self.heap.used_size(),
+            heap_free: self.heap.free_size(),
+            stack_capacity: self.stack.len(),
+            sp: self.stack.get_sp(),
+            bp: self.bp,
+            ep: self.ep,
+            ip: self.ip,
+            max_sp: self.verif.max_sp,
+            instr_count: self.verif.instr_count,
+            forced_collections: self.verif.forced_collections,
+        }
+    }
+
+    pub fn verif_heap(&self) -> &Heap {
+        &self.heap
+    }
+
+    pub fn verif_stack(&self) -> &Stack {
+        &self.stack
+    }
+
+    pub fn verif_globenv(&self) -> &GlobalEnvironment {
+        &self.globenv
+    }
+
+    pub fn verif_acc(&self) -> &VCell {
+        &self.acc
+    }
+}
